@@ -1,8 +1,11 @@
 (* C43 — The producer never outruns the consumer's demand.
-   Same model and quantification as C42 (C42/Model.v, all legitimate fault schedules of any length). *)
+   Same model and quantification as C42 (C42/Model.v, all legitimate fault schedules of any length); [fx] selects the
+   registration rule of the producer controller (false: demandUpTo := currentSeq, the code as it is; true:
+   min(demandUpTo, currentSeq), the proposed repair) — the theorems hold for both on whole-payload flows. *)
 From Coq Require Import ZArith List Bool.
 From GV Require Import C42.Model C42.Lemmas C42.InvP C42.InvC C42.Proofs.
 From GV Require C42.Examples.
+From GV Require Import C43.Chunked.
 Import ListNotations.
 Open Scope Z_scope.
 
@@ -10,31 +13,47 @@ Open Scope Z_scope.
    (requestUpToSeq, which never decreases — C42_represented_only_while_in_flight), the producer has not even
    STORED beyond it, that request is within one window of the consumer's confirmations, and every sequenced
    message ever put on the wire carries a sequence within it. *)
-Theorem C43_never_beyond_requested : forall sess notify W ops,
+Theorem C43_never_beyond_requested : forall sess notify W fx ops,
   sess <> 0 -> 1 <= W -> forallb legit ops = true ->
-  let s := run (sys_init sess notify W) ops in
+  let s := run (sys_init sess notify W fx) ops in
   p_demand (sP s) <= c_upto (sC s) /\ p_cur (sP s) <= c_upto (sC s) /\ c_upto (sC s) <= c_conf (sC s) + W /\
   forall se m q, In (SeqMsg se m q) (netCC s) -> 1 <= q <= p_cur (sP s) /\ q <= c_upto (sC s).
 Proof. intros. eapply sent_within_requested; try eassumption; apply reach_inv; assumption. Qed.
 
 (* At the moment of emission: whatever a step sends is at or below the producer's demand after that step,
    which is at or below the consumer's highest request. *)
-Theorem C43_emitted_within_demand : forall sess notify W ops o,
+Theorem C43_emitted_within_demand : forall sess notify W fx ops o,
   sess <> 0 -> 1 <= W -> forallb legit ops = true -> legit o = true ->
-  let s := run (sys_init sess notify W) ops in
+  let s := run (sys_init sess notify W fx) ops in
   Forall (seq_within (p_demand (sP (sys_step s o)))) (outs_toCC (fst (snd (sys_step_out s o)))) /\
   p_demand (sP (sys_step s o)) <= c_upto (sC (sys_step s o)).
 Proof. intros. eapply emitted_within_demand; try eassumption; apply reach_inv; assumption. Qed.
 
 (* The consumer-side receive buffer: strictly ascending sequences above expectedSeq and within the request, hence
    never more than window-1 entries — the "buffer full" drop of bufferMessage is unreachable. *)
-Theorem C43_buffer_within_window : forall sess notify W ops,
+Theorem C43_buffer_within_window : forall sess notify W fx ops,
   sess <> 0 -> 1 <= W -> forallb legit ops = true ->
-  let s := run (sys_init sess notify W) ops in
+  let s := run (sys_init sess notify W fx) ops in
   Z.of_nat (length (c_buf (sC s))) <= W - 1 /\
   lb_sorted (c_exp (sC s)) (c_buf (sC s)) /\ (forall e, In e (c_buf (sC s)) -> snd e <= c_upto (sC s)).
 Proof. intros. eapply buffer_below_window; try eassumption; apply reach_inv; assumption. Qed.
 
+(* Chunked flows (one message = several sequence numbers). The literal property FAILS on the code as it is: the
+   registration rule demandUpTo := currentSeq lifts the demand to sequences that were stored beyond it, and the
+   pending chunks are then emitted beyond everything the consumer controller ever requested. Witness schedule in the
+   demand-ledger model of C43/Chunked.v (window 4, two messages of three chunks, a re-registration between Stored
+   and StoredAck); checks/C43.py replays it on the real controllers (corpus/C43) and reports it as a known finding. *)
+Theorem C43_chunked_registration_refuted : exists ops, l_maxemit (lrun false ops) > l_maxreq (lrun false ops).
+Proof. exact chunked_refuted. Qed.
+
+(* With the registration rule demandUpTo := min(demandUpTo, currentSeq) (fixes/C43-registration-demand.diff) the
+   demand and everything emitted stay within the highest request, for every schedule and every chunk count. *)
+Theorem C43_chunked_registration_partial : forall ops,
+  let s := lrun true ops in l_demand s <= l_maxreq s /\ l_maxemit s <= l_maxreq s.
+Proof. exact chunked_partial. Qed.
+
 Print Assumptions C43_never_beyond_requested.
 Print Assumptions C43_emitted_within_demand.
 Print Assumptions C43_buffer_within_window.
+Print Assumptions C43_chunked_registration_refuted.
+Print Assumptions C43_chunked_registration_partial.
